@@ -1620,6 +1620,7 @@ func TestVerif_C06(t *testing.T) {
 	denySweeps := true
 	var shapeCoq []string
 	var gateCases, gateIdx []string
+	var wgCases, wgIdx, wrCases, wrIdx []string
 	var groups, routeIdx []string
 	nRoute := 0
 	groupOffset := 0
@@ -1664,6 +1665,7 @@ func TestVerif_C06(t *testing.T) {
 				shapeCoq = append(shapeCoq, fmt.Sprintf("(%s, %s) (* %s *)", s.tls, s.cred, s.name))
 			}
 			c06GateCases(p, thorough, &gateCases, &gateIdx)
+			wgCases, wgIdx, wrCases, wrIdx = c06WindowCases(p, hit)
 		}
 		if ci == 0 {
 			c06RealTLS(p, hit)
@@ -1943,6 +1945,10 @@ func TestVerif_C06(t *testing.T) {
 	sb.WriteString("Definition denies : list (list N) := [\n " + strings.Join(denyCoq, ";\n ") + "].\n")
 	sb.WriteString("Definition webui_cases : list (list N * N) := [\n " + strings.Join(webuiCases, ";\n ") + "].\n")
 	sb.WriteString("Definition c06_webui_mismatches := Eval vm_compute in mismatches webui_bad webui_cases.\nPrint c06_webui_mismatches.\n")
+	sb.WriteString("Definition wgate_cases : list wgate := [\n " + strings.Join(wgCases, ";\n ") + "].\n")
+	sb.WriteString("Definition c06_window_gate_mismatches := Eval vm_compute in mismatches wgate_bad wgate_cases.\nPrint c06_window_gate_mismatches.\n")
+	sb.WriteString("Definition wroute_cases : list wroute := [\n " + strings.Join(wrCases, ";\n ") + "].\n")
+	sb.WriteString("Definition c06_window_route_mismatches := Eval vm_compute in mismatches wroute_bad wroute_cases.\nPrint c06_window_route_mismatches.\n")
 	var gchunks, rchunks []string
 	for i := 0; i < len(gateCases); i += 3000 {
 		j := i + 3000
@@ -1969,6 +1975,10 @@ func TestVerif_C06(t *testing.T) {
 	ioutil.WriteFile(filepath.Join(verifOut(), "CasesC06_gate.idx"), []byte(strings.Join(gateIdx, "\n")), 0644)
 	ioutil.WriteFile(filepath.Join(verifOut(), "CasesC06_route.idx"), []byte(strings.Join(routeIdx, "\n")), 0644)
 	ioutil.WriteFile(filepath.Join(verifOut(), "CasesC06_webui.idx"), []byte(strings.Join(webuiCases, "\n")), 0644)
+	ioutil.WriteFile(filepath.Join(verifOut(), "CasesC06_wgate.idx"), []byte(strings.Join(wgIdx, "\n")), 0644)
+	ioutil.WriteFile(filepath.Join(verifOut(), "CasesC06_wroute.idx"), []byte(strings.Join(wrIdx, "\n")), 0644)
+	res.Extra["window_gate_calls"] = len(wgCases)
+	res.Extra["window_route_probes"] = len(wrCases)
 	res.sample(map[string]interface{}{"route": "/api/v0/manageU2FToken", "credential": "cookie-alice-password+u2f", "method": "GET", "referer": "https://evil.example.net/x.html", "expected": "no effect"})
 	res.sample(map[string]interface{}{"route": "/v1/refreshRoleRequestingCert", "credential": "cert-ip-loopback-xff", "method": "POST", "expected": "refused"})
 	if len(routeIdx) > 10 {
@@ -2220,6 +2230,154 @@ func c06GateCases(p *c06Prober, thorough bool, cases, idx *[]string) {
 	}
 }
 
+
+// ---------------------------------------------------------------- the cookie's time window at its boundaries
+
+// Tokens are minted for each request relative to the clock at that moment (exp two seconds ago, a minute
+// minus one second ago, ..., nbf two seconds ahead, ...), the clock is read immediately before and after
+// the request, and both readings travel with the case: the model's window test is exact, the measured
+// interval is the only tolerance.  The oracle knows nothing but the claims and the readings: a cookie
+// whose exp lies before the first reading, or whose nbf lies after the second, establishes nothing.
+type c06Window struct {
+	name, class   string
+	nbf, exp, iat int64 // offsets from the clock at minting, seconds
+	basic         int   // 0 none, 1 alice good, 2 alice wrong password
+}
+
+var c06Windows = []c06Window{
+	{"expired-1h-ago", "cookie-expired-by-1h", -7200, -3600, -7200, 0},
+	{"expired-61s-ago", "cookie-expired-by-61s", -7200, -61, -7200, 0},
+	{"expired-59s-ago", "cookie-expired-by-59s", -7200, -59, -7200, 0},
+	{"expired-30s-ago", "cookie-expired-by-30s", -7200, -30, -7200, 0},
+	{"expired-2s-ago", "cookie-expired-by-2s", -7200, -2, -7200, 0},
+	{"expires-in-2s", "cookie-good", -7200, 2, -7200, 0},
+	{"expires-in-1h", "cookie-good", -7200, 3600, -7200, 0},
+	{"valid-since-2s", "cookie-good", -2, 7200, -2, 0},
+	{"not-valid-for-2s", "cookie-not-yet-valid-in-2s", 2, 7200, 2, 0},
+	{"not-valid-for-59s", "cookie-not-yet-valid-in-59s", 59, 7200, 59, 0},
+	{"not-valid-for-61s", "cookie-not-yet-valid-in-61s", 61, 7200, 61, 0},
+	{"issued-in-the-future", "cookie-good", -60, 7200, 600, 0},
+	{"issued-in-the-future-expired-2s-ago", "cookie-expired-by-2s", -7200, -2, 600, 0},
+	{"expired-2s-ago+basic-good", "cookie-expired-by-2s+basic-good", -7200, -2, -7200, 1},
+	{"expired-59s-ago+basic-good", "cookie-expired-by-59s+basic-good", -7200, -59, -7200, 1},
+	{"not-valid-for-2s+basic-good", "cookie-not-yet-valid-in-2s+basic-good", 2, 7200, 2, 1},
+	{"expires-in-2s+basic-bad", "cookie-good+basic-bad", -7200, 2, -7200, 2},
+}
+
+func c06WindowCases(p *c06Prober, hit func(verifHit)) (gc, gi, rc, ri []string) {
+	st := p.env.state
+	lvl := AuthTypePassword | AuthTypeU2F
+	mint := func(w c06Window) (tok string, nbf, exp, iat int64) {
+		t := time.Now().Unix()
+		nbf, exp, iat = t+w.nbf, t+w.exp, t+w.iat
+		return p.env.sessionJWT("alice", lvl, iat, nbf, exp), nbf, exp, iat
+	}
+	wc := func(w c06Window, nbf, exp, iat, b, a int64) string {
+		return fmt.Sprintf("(WC %s %s %s 1 %d %d %s %s)", coqZ(nbf), coqZ(exp), coqZ(iat), lvl, w.basic, coqZ(b), coqZ(a))
+	}
+	apply := func(w c06Window, req *http.Request, tok string) {
+		req.AddCookie(authCookie(tok))
+		switch w.basic {
+		case 1:
+			req.SetBasicAuth("alice", "alicepw")
+		case 2:
+			req.SetBasicAuth("alice", "wrong")
+		}
+	}
+	// what the oracle knows: the cookie establishes (alice, lvl) iff nbf <= reading <= exp for the readings the
+	// request can have made, all of them inside [b, a]; a basic-auth header next to a cookie establishes alice
+	// at the password level
+	outside := func(nbf, exp, b, a int64) bool { return exp*1e9 < b || nbf*1e9 > a }
+	masks := []int{p.webui, AuthTypeAny, p.webui | AuthTypeKeymasterX509, AuthTypePassword, AuthTypeU2F | AuthTypeIPCertificate}
+	for _, w := range c06Windows {
+		for _, mask := range masks {
+			for _, mo := range [][2]interface{}{{"GET", 0}, {"POST", 0}, {"POST", 1}} {
+				method, oi := mo[0].(string), mo[1].(int)
+				o := c06Origins[oi]
+				req := verifNewRequest(method, "/probe", nil)
+				if o.origin != "" {
+					req.Header.Set("Origin", o.origin)
+				}
+				oc := c06OriginClass(o.origin, o.referer, req.Host)
+				tok, nbf, exp, iat := mint(w)
+				apply(w, req, tok)
+				rw := &c06Writer{ResponseRecorder: httptest.NewRecorder()}
+				b := time.Now().UnixNano()
+				ai, err := st.checkAuth(rw, req, mask)
+				a := time.Now().UnixNano()
+				adm, user, level, code, oiat := 0, 0, 0, 0, int64(0)
+				if err == nil && ai != nil {
+					adm, user, level, oiat = 1, c06User(ai.Username), ai.AuthType, ai.IssuedAt.Unix()
+				} else if rw.wrote {
+					code = rw.code
+				}
+				p.res.eval(fmt.Sprintf("window-gate|%s|%d|%s|%d|%d|%d|%d", w.name, mask, method, adm, user, level, code), adm == 1)
+				p.res.bump("gate-call-window")
+				byPassword := w.basic == 1 && user == c06User("alice") && level == AuthTypePassword && mask&AuthTypePassword != 0
+				if adm == 1 && outside(nbf, exp, b, a) && !byPassword {
+					hit(verifHit{Key: "C06:gate-admits:" + w.class, Oracle: "checkAuth admits the subject of a session cookie outside its signed time window",
+						What: fmt.Sprintf("checkAuth(mask=%d) %s with a session cookie of alice with nbf = clock%+ds, exp = clock%+ds at the time of the request (%s) -> user %q level %d; clock before the call %d ns, after %d ns, exp %d s, nbf %d s",
+							mask, method, w.nbf, w.exp, w.name, ai.Username, level, b, a, exp, nbf),
+						Case:     map[string]interface{}{"credential": "cookie-" + w.name, "mask": mask, "method": method, "nbf_offset_s": w.nbf, "exp_offset_s": w.exp, "iat_offset_s": w.iat, "basic": w.basic},
+						Observed: map[string]interface{}{"user": ai.Username, "level": level, "clock_before_ns": b, "clock_after_ns": a, "exp_s": exp, "nbf_s": nbf}})
+				}
+				gc = append(gc, fmt.Sprintf("WG %s %d %d %d %d %d %d %d %s", wc(w, nbf, exp, iat, b, a), mask, c06MethN(method), oc, adm, user, level, code, coqZ(oiat)))
+				gi = append(gi, fmt.Sprintf("%d\tcheckAuth mask=%d %s origin=%q cred=cookie-%s (nbf=clock%+ds exp=clock%+ds iat=clock%+ds basic=%d) clock=[%d, %d]ns -> admitted=%d user=%d level=%d code=%d",
+					len(gi), mask, method, o.origin, w.name, w.nbf, w.exp, w.iat, w.basic, b, a, adm, user, level, code))
+			}
+		}
+	}
+	// ... and through representative routes: signed material, profile read, profile change
+	type rt struct{ key, method, target string }
+	rts := []rt{{"runtimeState.certGenHandler", "POST", "alice"}, {"runtimeState.profileHandler", "GET", ""}, {"runtimeState.GenerateNewTOTP", "GET", "alice"},
+		{"runtimeState.u2fTokenManagerHandler", "POST", "alice"}, {"runtimeState.idpOpenIDCAuthorizationHandler", "POST", "alice"}, {"runtimeState.u2fSignRequest", "GET", "alice"}}
+	byKey := map[string]verifRoute{}
+	for _, r := range verifRouteTable() {
+		byKey[c06RouteKey(r)] = r
+	}
+	for _, w := range c06Windows {
+		for _, q := range rts {
+			route, ok := byKey[q.key]
+			if !ok {
+				continue
+			}
+			req := p.build(route, q.key, q.method, q.target, false, nil)
+			tok, nbf, exp, iat := mint(w)
+			apply(w, req, tok)
+			b := time.Now().UnixNano()
+			obs := p.serve(req)
+			a := time.Now().UnixNano()
+			p.res.eval(fmt.Sprintf("window-route|%s|%s|%s|%s|%d", w.name, q.key, q.method, obs.user, obs.effects), obs.user != "" || obs.effects != 0)
+			p.res.bump("route-probe-window")
+			if obs.effects != 0 {
+				p.witnessed[q.key] |= obs.effects
+			}
+			desc := map[string]interface{}{"config": p.cfgName, "route": route.Path, "handler": q.key, "credential": "cookie-" + w.name, "method": q.method, "target": q.target,
+				"nbf_offset_s": w.nbf, "exp_offset_s": w.exp, "iat_offset_s": w.iat, "basic": w.basic}
+			observed := map[string]interface{}{"status": obs.status, "logged_user": obs.user, "effects": c06EffNames(obs.effects), "clock_before_ns": b, "clock_after_ns": a, "exp_s": exp, "nbf_s": nbf}
+			if outside(nbf, exp, b, a) && w.basic != 1 {
+				if obs.effects != 0 {
+					hit(verifHit{Key: fmt.Sprintf("C06:effect-without-credential:%s:%s", q.key, w.class), Oracle: "protected effect although the only session cookie of the request is outside its signed time window",
+						What: fmt.Sprintf("%s %s with a session cookie of alice with nbf = clock%+ds, exp = clock%+ds (%s): effects %v, status %d", q.method, route.Path, w.nbf, w.exp, w.name, c06EffNames(obs.effects), obs.status),
+						Case: desc, Observed: observed})
+				}
+				if obs.user != "" {
+					hit(verifHit{Key: fmt.Sprintf("C06:admitted-without-credential:%s:%s", q.key, w.class), Oracle: "the access log records an admitted identity although the only session cookie of the request is outside its signed time window",
+						What: fmt.Sprintf("%s %s with a session cookie of alice with nbf = clock%+ds, exp = clock%+ds (%s) was admitted as %q", q.method, route.Path, w.nbf, w.exp, w.name, obs.user),
+						Case: desc, Observed: observed})
+				}
+			}
+			loggedN := c06User(obs.user)
+			if obs.panic {
+				loggedN = 255
+			}
+			rc = append(rc, fmt.Sprintf("WR %s %s %d %d 0 %d %d %d", wc(w, nbf, exp, iat, b, a), coqStringLit(q.key), p.webui, c06MethN(q.method), c06User(q.target), loggedN, obs.effects))
+			ri = append(ri, fmt.Sprintf("%d\tconfig=%s %s %s cred=cookie-%s (nbf=clock%+ds exp=clock%+ds iat=clock%+ds basic=%d) target=%q clock=[%d, %d]ns -> status=%d user=%q effects=%v",
+				len(ri), p.cfgName, q.method, route.Path, w.name, w.nbf, w.exp, w.iat, w.basic, q.target, b, a, obs.status, obs.user, c06EffNames(obs.effects)))
+		}
+	}
+	return
+}
 
 // ---------------------------------------------------------------- real TLS handshakes
 
